@@ -195,7 +195,9 @@ func init() {
 // panicSites: explicit panics under a root set; each must be an unreachable switch default
 // (proved by TAB) or a reviewed exception.
 var panicExceptions = map[string]string{
-	"jsonata.lt": "lt panics for operands that are not both numbers or both strings; its callers (evalComparisonOperator after the type gate, makeLessFunc after buildSortInfo's type bookkeeping, lte) establish that by value reasoning the analysis does not model: listed, not decided",
+	"jparse.Parse$1":      "Parse's deferred closure re-panics a recovered value that is not a *Error: it only forwards a panic that some other rule would have to exclude (ERR shows every value thrown by the parser itself is a *Error)",
+	"jsonata.MustCompile": "the documented panic of MustCompile; that it happens exactly when Compile returned an error is decided by the MustCompile shape rule (ERR)",
+	"jsonata.lt":          "lt panics for operands that are not both numbers or both strings; its callers (evalComparisonOperator after the type gate, makeLessFunc after buildSortInfo's type bookkeeping, lte) establish that by value reasoning the analysis does not model: listed, not decided",
 }
 
 func runPanics(c *Ctx, r *Result, rule string, reach *Reach, tabProved map[string]bool) int {
@@ -210,6 +212,17 @@ func runPanics(c *Ctx, r *Result, rule string, reach *Reach, tabProved map[strin
 			switch ins := ins.(type) {
 			case *ssa.Panic:
 				isPanic = true
+				// panics that throw an error value are obligations of the ERR rule
+				v := ins.X
+				if mi, ok := v.(*ssa.MakeInterface); ok {
+					v = mi.X
+				}
+				if ci, ok := v.(*ssa.ChangeInterface); ok {
+					v = ci.X
+				}
+				if isErrorType(v.Type()) || isNamed(v.Type(), "jparse", "Error") {
+					isPanic = false
+				}
 			case ssa.CallInstruction:
 				if callee := ins.Common().StaticCallee(); callee != nil && callee.Name() == "panicf" {
 					isPanic = true
@@ -489,6 +502,35 @@ func init() {
 			runW(c, c.G, r, "W-register", pkgRegisterRootCfg(c))
 			runW(c, c.G, r, "W-exprregister", exprRegisterRootCfg(c))
 			r.Assume(wAssume1)
+		},
+	})
+}
+
+func init() {
+	register(&propDef{
+		ID:          "C08",
+		Explanation: "Decides the panic/hang classes of Compile that are visible in the shape of the code, for every input string: (ERR) every error value that is returned, thrown to Parse's recover, or stored in jparse is nil, a *jparse.Error, lexer.err, or the result of another jparse function (inductively the same), every Error literal carries a declared non-zero ErrType (all of which have messages, TAB), Parse's deferred closure turns exactly the *Error panics into (nil, err), Compile hands Parse's error on with a nil expression and MustCompile panics exactly on err != nil; (LEX) abstract interpretation of the lexer over a finite domain (cursor position, width typestate, one known first rune per cell of the partition induced by the lexer's own constants and tables, unknown runes afterwards): no rewind by a stale width (the double backup behind Compile(\"!é\") and Compile(\"[1.䑁]\")), and every token returned by next other than EOF/error has consumed a rune, for every first rune (the empty-token hang behind function($x)<!>{$x}); (LOOP/REC) every loop under Compile has a recognised variant — parser loops consume a token or panic per cycle, lexer loops read a rune and leave at eof, accept predicates reject eof — and every recursive SCC a reviewed descent; (TAB/PANIC) each led is registered for exactly the tokens its switch handles, so every explicit 'unexpected ...' panic under Compile is unreachable. NOT decided, and said so: runtime index/slice panics (parseParams' s[len(part)+2:] after an unmatched bracket — Compile(\"function($x)<(>{$x}\") — is a real panic no rule here targets), stack depth on deeply nested input.",
+		Rule:        commonRule,
+		Fixtures:    []string{"loop", "tab"},
+		Run: func(c *Ctx, r *Result) {
+			runERR(c, r, "ERR")
+			runErrMsgs(c, r, "TAB", "jparse", 27)
+			runLEX(c, r, "LEX")
+			counts := runLOOP(c, r, "LOOP", srcFuncsIn(c.RCompile), c.RCompile)
+			r.Note("LOOP classes under Compile: %v", counts)
+			if counts["P"] < 8 || counts["L"] < 5 {
+				r.LoseAnchor("LOOP: expected >= 8 parser loops and >= 5 lexer loops under Compile, found P=%d L=%d", counts["P"], counts["L"])
+			}
+			n := runAcceptPredicates(c, r, "LOOP")
+			r.RequireMin("LOOP accept predicates and acceptRune arguments", n, 10)
+			k := runRecursion(c, r, "REC", c.RCompile)
+			r.RequireMin("REC recursive SCCs under Compile", k, 4)
+			m := runRegistrationSwitch(c, r, "TAB")
+			r.RequireMin("TAB led/nud registration-vs-switch checks", m, 4)
+			tabProved := map[string]bool{"jparse.parseBoolean": true, "jparse.parseNumericOperator": true, "jparse.parseComparisonOperator": true, "jparse.parseBooleanOperator": true}
+			p := runPanics(c, r, "PANIC", c.RCompile, tabProved)
+			r.RequireMin("PANIC string panics under Compile", p, 4)
+			r.Assume("the input string is finite; regexp.Compile, strconv.ParseFloat and utf8/utf16 functions terminate and do not panic")
 		},
 	})
 }
